@@ -1,6 +1,7 @@
 package main
 
 import (
+	"sort"
 	"go/token"
 	"go/types"
 	"fmt"
@@ -510,6 +511,74 @@ func runC04(r *Run) {
 			})
 		}
 		r.Floor("R13", "calls passing a (grantee, granter) pair on", nP, 20)
+	}
+
+	// ---------- R14 ----------
+	r.Rule("R14", "TABLE.grant-scope-carried-over: wherever a precompile builds the native value that scopes a grant from its ABI arguments (ibc-go transfertypes.Allocation: port, channel, spend limit, allow list; and the ABI-side cmn.ICS20Allocation on the way back) every field of the struct is assigned — a field left at its zero value is a restriction the signer asked for and did not get (an empty allow list means 'any receiver')")
+	{
+		nLit := 0
+		for _, fn := range P.Funcs {
+			if !strings.Contains(fnPkgPath(fn), "/precompiles/") || isTestSupport(P, fn) || fn.Synthetic != "" {
+				continue
+			}
+			type lit struct {
+				st     *types.Struct
+				name   string
+				fields map[string]bool
+				pos    token.Pos
+			}
+			lits := map[ssa.Value]*lit{}
+			eachInstr(fn, func(in ssa.Instruction) {
+				st, ok := in.(*ssa.Store)
+				if !ok {
+					return
+				}
+				fa, ok := st.Addr.(*ssa.FieldAddr)
+				if !ok {
+					return
+				}
+				pt, ok := fa.X.Type().Underlying().(*types.Pointer)
+				if !ok {
+					return
+				}
+				n := namedName(pt.Elem())
+				if !(n == "Allocation" && strings.HasSuffix(namedPkgPath(pt.Elem()), "transfer/types")) && n != "ICS20Allocation" {
+					return
+				}
+				sst, ok := pt.Elem().Underlying().(*types.Struct)
+				if !ok {
+					return
+				}
+				l := lits[fa.X]
+				if l == nil {
+					l = &lit{st: sst, name: n, fields: map[string]bool{}, pos: in.Pos()}
+					lits[fa.X] = l
+				}
+				l.fields[sst.Field(fa.Field).Name()] = true
+			})
+			var keys []ssa.Value
+			for k := range lits {
+				keys = append(keys, k)
+			}
+			sort.Slice(keys, func(i, j int) bool { return lits[keys[i]].pos < lits[keys[j]].pos })
+			for i, k := range keys {
+				l := lits[k]
+				// a base that only receives a single field write is an update of an existing value, not a construction
+				if len(l.fields) < 2 {
+					continue
+				}
+				nLit++
+				var missing []string
+				for j := 0; j < l.st.NumFields(); j++ {
+					if f := l.st.Field(j).Name(); !l.fields[f] && !strings.HasPrefix(f, "XXX_") {
+						missing = append(missing, f)
+					}
+				}
+				r.Check(len(missing) == 0, "R14", fmt.Sprintf("%s#%s-literal-%d/all-fields", fnID(fn), l.name, i+1), P.Pos(l.pos), "every field assigned",
+					fmt.Sprintf("the %s built here leaves %v at the zero value: that part of the grant's scope (what the signer restricted the grantee to) is silently dropped — a contract holding the grant can act outside it", l.name, missing))
+			}
+		}
+		r.Floor("R14", "constructions of grant-scope structs in precompiles", nLit, 2)
 	}
 
 	// ---------- R12 ----------
